@@ -12,6 +12,8 @@ All randomness comes from the rng that is passed in.
 """
 from __future__ import annotations
 
+import re
+
 # --------------------------------------------------------------------------- strings
 
 ADVERSARIAL = ["\r", "\n", "\r\n", "\x0b", "\x0c", "\x1c", "\x1d", "\x1e", "\x85", " ", " ",
@@ -724,16 +726,50 @@ def spec_to_schema(spec, rng):
             return {k: plain(x) for k, x in v.items()}
         return v
 
+    def vary(v, t):
+        """Another Python representation of the same default value that the type's value_to_literal / serialize
+        accepts: integral floats for Int, ints for integral Floats, int <-> numeric string for ID, tuples for lists,
+        input-object dicts in another key order - at every nesting level."""
+        if v is None:
+            return None
+        if t[0] == "nn":
+            return vary(v, t[1])
+        if t[0] == "l":
+            if isinstance(v, (list, tuple)):
+                items = [vary(x, t[1]) for x in v]
+                return tuple(items) if rng.random() < 0.4 else items
+            return vary(v, t[1])
+        name = t[1]
+        if name == "Int":
+            if type(v) is int and rng.random() < 0.4:
+                return float(v)
+        elif name == "Float":
+            if type(v) is float and v.is_integer() and abs(v) < 1e15 and rng.random() < 0.4:
+                return int(v)
+        elif name == "ID":
+            if type(v) is int and rng.random() < 0.4:
+                return str(v)
+            if type(v) is str and re.fullmatch(r"-?(0|[1-9][0-9]*)", v) and rng.random() < 0.4:
+                return int(v)
+        else:
+            ty = spec.type(name)
+            if ty is not None and ty.kind == "input" and isinstance(v, dict):
+                ft = {a.name: a.type for a in ty.inputs}
+                keys = list(v)
+                rng.shuffle(keys)
+                return {k: vary(v[k], ft[k]) for k in keys}
+        return v
+
     def default_kwargs(a):
         if a.default is None:
             return {}
         v = a.default[1]
         r = rng.random()
         if r < 0.4:
-            return {"default": GraphQLDefaultInput(value=plain(v))}
+            return {"default": GraphQLDefaultInput(value=vary(plain(v), a.type))}
         if r < 0.7:
             return {"default": GraphQLDefaultInput(literal=parse_const_value(value_sdl(v)))}
-        iv = internal(plain(v), a.type)
+        iv = vary(internal(plain(v), a.type), a.type)
         try:
             from graphql.utilities import ast_from_value
             if ast_from_value(iv, ref(a.type)) is None:
@@ -1164,7 +1200,7 @@ def w_defs(document, drop_specified=False):
             else:
                 out.append(0)
             out += _w_inputs_ast(d.fields, depr) if kind == 5 else [0]
-            out += w_opt(get_specified_by_url(d) if kind == 0 and not ext else None)
+            out += w_opt(get_specified_by_url(d) if kind == 0 else None)
             out.append(1 if kind == 5 and not ext and is_one_of(d) else 0)
         else:
             out.append(5)
@@ -1208,4 +1244,55 @@ def r_json(r):
     for _ in range(r.n()):
         k = r.text()
         out[k] = r_json(r)
+    return out
+
+
+# --------------------------------------------------------------------------- default-value representation probes
+
+
+def representation_probes():
+    """Minimal programmatic schemas whose default values use every Python representation the scalars accept
+    (integral floats for Int, ints for Float/ID, numeric strings for ID, tuples for lists, dicts in another key
+    order), at every nesting: argument, list, input-object field, input field default, directive argument;
+    each given as GraphQLDefaultInput(value=...) and as the legacy default_value.  -> [(key, schema)]"""
+    from graphql import (DirectiveLocation, GraphQLArgument, GraphQLBoolean, GraphQLDirective, GraphQLField,
+                         GraphQLFloat, GraphQLID, GraphQLInputField, GraphQLInputObjectType, GraphQLInt, GraphQLList,
+                         GraphQLNonNull, GraphQLObjectType, GraphQLSchema, GraphQLString, specified_directives)
+    from graphql.type import GraphQLDefaultInput
+    out = []
+
+    def kw(style, v):
+        return {"default": GraphQLDefaultInput(value=v)} if style == "value" else {"default_value": v}
+
+    simple = [(GraphQLInt, v) for v in [100.0, 2e3, -7.0, -0.0, 0.0, 2147483647.0]] \
+        + [(GraphQLFloat, v) for v in [3, -2, 0, 10 ** 15]] \
+        + [(GraphQLID, v) for v in [7, -3, 12.0, "12", "-0", "1e3"]] \
+        + [(GraphQLBoolean, v) for v in [True, False]] \
+        + [(GraphQLList(GraphQLInt), v) for v in [(1, 2.0), [3.0], 5.0, (), (None, 4.0)]] \
+        + [(GraphQLList(GraphQLNonNull(GraphQLID)), v) for v in [("1", 2, 3.0), 9]] \
+        + [(GraphQLList(GraphQLList(GraphQLFloat)), v) for v in [((1, 2.5), [3]), [(4,)]]] \
+        + [(GraphQLNonNull(GraphQLInt), 8.0)]
+    for style in ("value", "legacy"):
+        for ty, v in simple:
+            q = GraphQLObjectType("Query", {"f": GraphQLField(GraphQLInt, args={"a": GraphQLArgument(ty, **kw(style, v))})})
+            out.append((f"repr-probe:{ty}:{v!r}:{style}", GraphQLSchema(q)))
+        # nested: input object fields, input field defaults, list of input objects, directive arguments
+        inp = GraphQLInputObjectType("In", lambda style=style: {
+            "i": GraphQLInputField(GraphQLInt, **kw(style, 5.0)),
+            "l": GraphQLInputField(GraphQLList(GraphQLNonNull(GraphQLInt)), **kw(style, (1.0, 2))),
+            "f": GraphQLInputField(GraphQLFloat, **kw(style, 2)),
+            "id": GraphQLInputField(GraphQLID, **kw(style, 7)),
+            "n": GraphQLInputField(inp),
+            "s": GraphQLInputField(GraphQLString)})
+        obj_default = {"s": "x", "n": {"i": 4.0, "l": (6.0,)}, "id": 12, "f": 3, "l": (1.0, 2), "i": 3.0}
+        list_default = ({"i": 1.0}, {"id": "8", "f": -1}, {"l": [2.0, 3]})
+        q = GraphQLObjectType("Query", {"f": GraphQLField(GraphQLInt, args={
+            "o": GraphQLArgument(inp, **kw(style, obj_default)),
+            "os": GraphQLArgument(GraphQLList(inp), **kw(style, list_default)),
+            "single": GraphQLArgument(GraphQLList(inp), **kw(style, {"i": 9.0}))})})
+        d = GraphQLDirective("d", [DirectiveLocation.FIELD], args={
+            "a": GraphQLArgument(GraphQLInt, **kw(style, 100.0)),
+            "b": GraphQLArgument(inp, **kw(style, {"l": (7.0,), "i": 1.0})),
+            "c": GraphQLArgument(GraphQLList(GraphQLInt), **kw(style, (1.0, 2.0)))})
+        out.append((f"repr-probe:nested:{style}", GraphQLSchema(q, directives=list(specified_directives) + [d])))
     return out
